@@ -30,16 +30,52 @@ static __attribute__((noinline)) void paint_stack(const char *pat, uint64_t coun
     }
     sink = p[rng_u64() % n];
 }
+/* Heap residue.  Two mechanisms:
+ *  - "zero" / "ones" / "count": blocks of the sizes a call with `count`
+ *    elements asks for (count * {1,2,4,8,16}, bitmaps, plus fixed sizes) are
+ *    filled and freed, so that the call's own malloc()s are handed them back
+ *    (M_PERTURB off, otherwise glibc would overwrite the residue);
+ *  - "fill00" / "fillA1" / "fill7F" / "fillFE": glibc fills every block it
+ *    hands out with that byte (M_PERTURB), which reaches every allocation of
+ *    the call whatever its size. */
+static int g_perturb = 0x5E;
+static void set_perturb(int v) {
+    g_perturb = v;
+    mallopt(M_PERTURB, v);
+}
 static void paint_heap(const char *pat, uint64_t count) {
-    static const size_t sizes[] = {16, 24, 40, 48, 64, 72, 128, 200, 320, 600, 1024, 2400, 4096, 8192, 20000};
-    void *blk[15 * 4];
+    if (!strncmp(pat, "fill", 4)) {
+        unsigned fill = (unsigned)strtoul(pat + 4, NULL, 16);
+        set_perturb((int)((~fill) & 0xFF)); /* allocation fill = ~value */
+        return;
+    }
+    size_t sizes[40];
+    int ns = 0;
+    static const size_t fixed[] = {16, 24, 40, 48, 64, 72, 128, 200, 320, 600, 1024, 2400, 4096, 8192, 20000};
+    for (int i = 0; i < 15; i++) {
+        sizes[ns++] = fixed[i];
+    }
+    static const size_t mul[] = {1, 2, 4, 8, 16};
+    for (int d = -3; d <= 3; d += 3) { /* this count, and the counts of the "other count" previous calls */
+        for (int i = 0; i < 5; i++) {
+            sizes[ns++] = (size_t)((long long)count + d) * mul[i];
+        }
+    }
+    sizes[ns++] = (count + 7) / 8;
+    sizes[ns++] = (count + 63) / 64 * 8;
+    void *blk[40 * 3];
     int k = 0;
     uint64_t w = !strcmp(pat, "zero") ? 0 : !strcmp(pat, "ones") ? ~0ULL : count;
-    for (int rep = 0; rep < 4; rep++) {
-        for (int i = 0; i < 15; i++) {
-            uint8_t *b = malloc(sizes[i]);
-            for (size_t j = 0; j + 8 <= sizes[i]; j += 8) {
+    set_perturb(0);
+    for (int rep = 0; rep < 3; rep++) {
+        for (int i = 0; i < ns; i++) {
+            size_t sz = sizes[i] ? sizes[i] : 1;
+            uint8_t *b = malloc(sz);
+            for (size_t j = 0; j + 8 <= sz; j += 8) {
                 memcpy(b + j, &w, 8);
+            }
+            for (size_t j = sz & ~(size_t)7; j < sz; j++) {
+                b[j] = (uint8_t)w;
             }
             blk[k++] = b;
         }
@@ -68,6 +104,11 @@ static const pcall CALLS[] = {
     {"adaptive", 1, 4096, "rand8", 0}, {"adaptive", 2, 64, "cluster", 49}, {"adaptive", 3, 64, "fewuniq", 3},
     {"adaptive", 4, 64, "asc16", 0},  {"adaptive", 5, 64, "randw", 0},  {"adaptive", 1, 128, "asc1", 0},
     {"adaptive", 2, 300, "outlast", 0},
+    /* float codec: param = precision * 10 + exponent mode; "specials" mixes
+     * zeros, infinities, NaNs and subnormals (from index 2 on) with normals */
+    {"float", 0, 64, "specials", 0},  {"float", 11, 64, "specials", 0}, {"float", 22, 64, "specials", 0},
+    {"float", 30, 37, "specials", 0}, {"float", 12, 64, "normals", 0},  {"float", 21, 130, "normals", 0},
+    {"float", 1, 9, "specials", 0},
 };
 #define NCALLS (sizeof(CALLS) / sizeof(CALLS[0]))
 
@@ -116,8 +157,140 @@ static void prev_release(prevargs *p) {
     free(p->buf);
 }
 
+/* float calls: values are a function of (shape, n, salt) only */
+static void float_values(const char *shape, size_t n, uint64_t salt, double *out) {
+    static const uint64_t SPEC[] = {0x0ULL, 0x8000000000000000ULL, 0x7FF0000000000000ULL, 0xFFF0000000000000ULL,
+                                    0x7FF8000000000001ULL, 0x1ULL, 0x800FFFFFFFFFFFFFULL};
+    for (size_t i = 0; i < n; i++) {
+        uint64_t h = (i + 1) * 0x9E3779B97F4A7C15ULL + salt * 0xD1B54A32D192ED03ULL;
+        h ^= h >> 29;
+        uint64_t b = ((h & 1) << 63) | ((uint64_t)(1023 - 20 + (h >> 8) % 40) << 52) | ((h >> 12) & ((1ULL << 52) - 1));
+        int special = !strcmp(shape, "specials") && i >= 2 && ((i + salt) % 3 != 0);
+        if (!strcmp(shape, "allspecial")) {
+            special = 1;
+        }
+        if (special) {
+            b = SPEC[(i + salt) % 7];
+        }
+        if (!strcmp(shape, "negnormals")) {
+            b |= 1ULL << 63;
+        }
+        memcpy(&out[i], &b, 8);
+    }
+}
+static __attribute__((noinline)) size_t ftramp(uint8_t *dst, const double *v, size_t n, int prec, int mode) {
+    return varintFloatEncode(dst, v, n, (varintFloatPrecision)prec, (varintFloatEncodingMode)mode);
+}
+static __attribute__((noinline)) size_t fdtramp(const uint8_t *src, size_t n, double *out) {
+    return varintFloatDecode(src, n, out);
+}
+static void float_prev(const char *arg, const pcall *c) {
+    int prec = (int)(c->param / 10), mode = (int)(c->param % 10);
+    const char *shapes[3];
+    size_t ns = 0, n = c->n;
+    if (!strcmp(arg, "same_api_same_count")) {
+        shapes[ns++] = "allspecial";
+        shapes[ns++] = "negnormals";
+    } else if (!strcmp(arg, "same_api_other_count")) {
+        n = c->n + 3;
+        shapes[ns++] = "allspecial";
+    } else {
+        prec = (prec + 1) % 4;
+        mode = (mode + 1) % 3;
+        shapes[ns++] = "specials";
+    }
+    for (size_t q = 0; q < ns; q++) {
+        double *v = malloc((n + 1) * 8);
+        float_values(shapes[q], n, 5 + q, v);
+        uint8_t *buf = malloc(varintFloatMaxEncodedSize(n, (varintFloatPrecision)prec) + 64);
+        double *back = malloc((n + 1) * 8);
+        size_t w = 0;
+        int pf = GUARDED(w = ftramp(buf, v, n, prec, mode));
+        if (!pf && w) {
+            (void)GUARDED(fdtramp(buf, n, back));
+        }
+        free(v);
+        free(buf);
+        free(back);
+    }
+}
+static void apply_sched(const char *sched, size_t n, size_t ci,
+                        void (*prev)(const char *arg, const void *ctx), const void *ctx) {
+    char tmp[512];
+    strncpy(tmp, sched, sizeof(tmp) - 1);
+    tmp[sizeof(tmp) - 1] = 0;
+    rng_seed(env_seed() * 31337ULL + ci);
+    char *save = NULL;
+    for (char *tok = strtok_r(tmp, ";", &save); tok; tok = strtok_r(NULL, ";", &save)) {
+        char kind[16], arg[32];
+        if (sscanf(tok, " %15s %31s", kind, arg) != 2) {
+            continue;
+        }
+        if (!strcmp(kind, "stack")) {
+            paint_stack(arg, n);
+        } else if (!strcmp(kind, "heap")) {
+            paint_heap(arg, n);
+        } else if (!strcmp(kind, "prev")) {
+            prev(arg, ctx);
+        }
+    }
+}
+static void float_prev_cb(const char *arg, const void *ctx) {
+    float_prev(arg, (const pcall *)ctx);
+}
+static void run_float_call(size_t ci, const char *sched, const char *proc) {
+    const pcall *c = &CALLS[ci];
+    int prec = (int)(c->param / 10), mode = (int)(c->param % 10);
+    size_t n = c->n;
+    double *v = malloc((n + 1) * 8);
+    float_values(c->shape, n, 1, v);
+    size_t room = varintFloatMaxEncodedSize(n, (varintFloatPrecision)prec) + 64;
+    uint8_t *dst = malloc(room);
+    memset(dst, 0, room);
+    double *ys = malloc((n + 1) * 8);
+    memset(ys, 0, (n + 1) * 8);
+    apply_sched(sched, n, ci, float_prev_cb, c);
+    size_t written = 0, consumed = 0;
+    int f = GUARDED(written = ftramp(dst, v, n, prec, mode));
+    int df = 0;
+    if (!f && written > 0 && written <= room) {
+        df = GUARDED(consumed = fdtramp(dst, n, ys));
+    }
+    set_perturb(0x5E);
+    uint64_t h = 1469598103934665603ULL;
+    for (size_t i = 0; !f && i < written && i < room; i++) {
+        h = (h ^ dst[i]) * 1099511628211ULL;
+    }
+    uint64_t hy = 1469598103934665603ULL;
+    for (size_t i = 0; !f && !df && i < n; i++) {
+        uint64_t b;
+        memcpy(&b, &ys[i], 8);
+        hy = (hy ^ b) * 1099511628211ULL;
+    }
+    ev_begin("Call");
+    char id[96];
+    snprintf(id, sizeof(id), "%s/%ld/%zu/%s/%ld", c->codec, c->param, c->n, c->shape, c->sparam);
+    ev_str("id", id);
+    ev_str("proc", proc);
+    ev_str("sched", sched);
+    ev_int("fault", f ? f : df);
+    ev_int("written", f ? -1 : (long long)written);
+    ev_limbs("digest", h);
+    ev_int("decoded", (long long)consumed);
+    ev_limbs("ydigest", hy);
+    ev_bytes("head", dst, f ? 0 : (written < 40 ? written : 40));
+    ev_end();
+    free(v);
+    free(dst);
+    free(ys);
+}
+
 static void run_call(size_t ci, const char *sched, const char *proc) {
     const pcall *c = &CALLS[ci];
+    if (!strcmp(c->codec, "float")) {
+        run_float_call(ci, sched, proc);
+        return;
+    }
     int codec = -1;
     for (int i = 0; i < C_NCODEC; i++) {
         if (!strcmp(c->codec, CODEC[i])) {
@@ -193,6 +366,7 @@ static void run_call(size_t ci, const char *sched, const char *proc) {
     if (!f && codec == C_ADAPTIVE && o.written > 0) {
         df = GUARDED(dn = varintAdaptiveDecode(dst, ys, n, NULL));
     }
+    set_perturb(0x5E);
     uint64_t h = 1469598103934665603ULL;
     for (size_t i = 0; !f && i < o.written && i < room; i++) {
         h = (h ^ dst[i]) * 1099511628211ULL;
@@ -234,7 +408,8 @@ int main(int argc, char **argv) {
     tr_open(argv[5]);
     guard_install();
     shim_fence = 0;
-    mallopt(M_PERTURB, 0x5E);
+    shim_bypass = 1; /* the library must see the real heap, residue included */
+    set_perturb(0x5E);
     char line[512];
     size_t idx = 0;
     while (fgets(line, sizeof(line), f)) {
